@@ -9,8 +9,8 @@ IDS="${@:-$(ls seeded)}"
 out=notes/seeds_regress.txt; : > $out
 for id in $IDS; do
   git -C $W reset -q --hard "$(git -C /repo rev-parse HEAD)"; git -C $W clean -qfd
-  if ! git -C $W apply seeded/$id/patch.diff 2>/dev/null; then
-    if ! git -C $W apply --3way seeded/$id/patch.diff >/dev/null 2>&1; then echo "$id NOAPPLY" | tee -a $out; continue; fi
+  if ! git -C $W apply /verif/seeded/$id/patch.diff 2>/dev/null; then
+    if ! git -C $W apply --3way /verif/seeded/$id/patch.diff >/dev/null 2>&1; then echo "$id NOAPPLY" | tee -a $out; continue; fi
   fi
   c=${id%%-*}
   o=$(VERIF_EVIDENCE_DIR=/tmp/vpl-seedreg-evidence VERIF_REPO=$W ./check $c quick 2>&1); rc=$?
